@@ -3,6 +3,7 @@ import Mathlib.Order.Monotone.Basic
 import Mathlib.Tactic.Linarith
 import Mathlib.Tactic.Ring
 import Urandom.Model.ZigData
+import Urandom.Lemmas.ExpEnclosure
 /-
 C16 - Normal and exponential samplers really have the normal / exponential law.  **PARTIAL.**
 
@@ -16,8 +17,11 @@ What is decided here:
      antitone density and any exact table over an ordered field (rectangle fast path included), and
      the accepted value lies in the layer's rectangle.
 What is NOT decided (see DESIGN.md 6): that uniform points under the curve have the target law
-(rejection sampling, Marsaglia's tail method) - `ZigguratLawFull` is stated, not proved; the
-ordinate-equals-density clause needs `Real.exp` enclosures and is validated outside Lean.
+(rejection sampling, Marsaglia's tail method) - `ZigguratLawFull` is stated, not proved.
+ (2) **every tabulated ordinate equals the density at the tabulated abscissa** (`Real.exp`, relative
+     `10^-13`, all 2 x 257 entries of the tables as they are in the source now): integer-only
+     enclosures of `Real.exp` (`Lemmas/ExpEnclosure`: degree-19 Taylor fraction, Mathlib's remainder
+     bound, `exp (k x) = (exp x)^k`) evaluated by the kernel.
 -/
 namespace Urandom.C16
 open Urandom.Generated
@@ -80,6 +84,43 @@ theorem table_bits_anchor :
     FD.tables.normR = 0x400D3BB48209AD33 ∧ FD.tables.normX.size = 257 ∧ FD.tables.expX.size = 257 ∧
     FD.tables.normX.getD 256 1 = 0 ∧ FD.tables.normF.getD 256 0 = 0x3FF0000000000000 := by
   decide +kernel
+
+/-! ### (2) the ordinates are the density at the abscissae -/
+
+def normEntries : List (ℕ × ℕ) := (nums ZIG_NORM_X).zip (nums ZIG_NORM_F)
+def expEntries : List (ℕ × ℕ) := (nums ZIG_EXP_X).zip (nums ZIG_EXP_F)
+
+/-- `exp (-x²/2)` at `x = N/10^18` is `exp (-(N²)/(2·10^36))`, reduced by `16` -/
+def normOrdinatesOk : Bool := normEntries.all fun p => ExpEncl.entryOk (p.1 * p.1) (2 * 10 ^ 36) 16 p.2
+/-- `exp (-x)` at `x = N/10^18`, reduced by `32` -/
+def expOrdinatesOk : Bool := expEntries.all fun p => ExpEncl.entryOk p.1 (10 ^ 18) 32 p.2
+
+theorem norm_ordinates_kernel : normOrdinatesOk = true := by decide +kernel
+theorem exp_ordinates_kernel : expOrdinatesOk = true := by decide +kernel
+
+/-- **normal table: every tabulated ordinate `F[i]` is the density `exp (-X[i]²/2)` at the tabulated
+abscissa**, to a relative `10^-13` (the tables carry 18 decimals and were generated in double
+precision), for all 257 entries of the table as it is in the source now -/
+theorem norm_ordinates_are_density :
+    normEntries.length = 257 ∧
+    ∀ p ∈ normEntries, |Real.exp (-((p.1 : ℝ) / 10 ^ 18) ^ 2 / 2) - (p.2 : ℝ) / 10 ^ 18| ≤ (p.2 : ℝ) / 10 ^ 18 / 10 ^ 13 := by
+  refine ⟨by decide +kernel, fun p hp => ?_⟩
+  have h := List.all_eq_true.1 norm_ordinates_kernel p hp
+  have hs := ExpEncl.entryOk_sound (p.1 * p.1) (2 * 10 ^ 36) 16 p.2 (by decide) h
+  have e : -((p.1 : ℝ) / 10 ^ 18) ^ 2 / 2 = -(((p.1 * p.1 : ℕ) : ℝ)) / ((2 * 10 ^ 36 : ℕ) : ℝ) := by
+    push_cast; ring
+  rw [e]; exact hs
+
+/-- **exponential table: every tabulated ordinate `F[i]` is the density `exp (-X[i])`**, likewise -/
+theorem exp_ordinates_are_density :
+    expEntries.length = 257 ∧
+    ∀ p ∈ expEntries, |Real.exp (-((p.1 : ℝ) / 10 ^ 18)) - (p.2 : ℝ) / 10 ^ 18| ≤ (p.2 : ℝ) / 10 ^ 18 / 10 ^ 13 := by
+  refine ⟨by decide +kernel, fun p hp => ?_⟩
+  have h := List.all_eq_true.1 exp_ordinates_kernel p hp
+  have hs := ExpEncl.entryOk_sound p.1 (10 ^ 18) 32 p.2 (by decide) h
+  have e : -((p.1 : ℝ) / 10 ^ 18) = -((p.1 : ℝ)) / ((10 ^ 18 : ℕ) : ℝ) := by
+    push_cast; ring
+  rw [e]; exact hs
 
 /-! ### (3) the acceptance region is the region under the curve -/
 
